@@ -1058,6 +1058,62 @@ def extra_C11(ctx: Ctx) -> Result:
     return res
 
 
+def spec_cell_count(line: str) -> int:
+    """number of cells of a physical line by the property text: the texts between consecutive unescaped '|'"""
+    n, i = 0, 0
+    while i < len(line):
+        if line[i] == "\\":
+            i += 2
+            continue
+        if line[i] == "|":
+            n += 1
+        i += 1
+    return max(n - 1, 0)
+
+
+def ragged_oracle(res: Result, docs, stream="ragged"):
+    """Implementation-only oracle for C12's last sentence (the statement of Props/C12Doc): in collecting mode, the
+    'inconsistent cell count' errors of a parse are EXACTLY one per table the run closed whose rows differ in cell count,
+    located at the first deviating row.  Tables are read off the tokens handed to the builder (consecutive TableRow
+    tokens, comment and blank lines between them allowed; any other built token ends the table — an unexpected line
+    does not); cell counts are computed from the SOURCE lines by the property's definition, not by the code."""
+    for src in docs:
+        if impl.is_existing_path(src):
+            continue
+        o = impl.parse(src, False)
+        if "crash" in o or len(o.get("errors", [])) > 10:
+            continue
+        phys = src.split("\n")
+        tables, cur = [], []
+        for b in o.get("builds", []):
+            m_ = re.match(r"^\((\d+):(\d+)\)(\w+):", b)
+            kind = m_.group(3) if m_ else "EOF"
+            if kind == "TableRow":
+                cur.append((int(m_.group(1)), int(m_.group(2))))
+            elif kind in ("Comment", "Empty"):
+                continue
+            else:
+                if cur:
+                    tables.append(cur)
+                cur = []
+        if cur:
+            tables.append(cur)
+        want = []
+        for t in tables:
+            counts = [spec_cell_count(phys[l - 1]) if 0 < l <= len(phys) else -1 for l, _ in t]
+            dev = next((k for k in range(1, len(t)) if counts[k] != counts[0]), None)
+            if dev is not None:
+                want.append({"line": t[dev][0], "column": t[dev][1]})
+        got = [e["location"] for e in o.get("errors", []) if "inconsistent cell count within the table" in e["message"]]
+        res.note({"source": src, "oracle": "ragged tables"}, bool(tables))
+        res.stats["ragged_oracle_tables"] += len(tables)
+        res.stats["ragged_oracle_ragged"] += len(want)
+        # the run may have been cut short by other errors? no: below the cap every line is processed
+        if sorted(map(lambda d: (d["line"], d.get("column")), got)) != sorted((d["line"], d["column"]) for d in want):
+            res.fail(stream, {"source": src, "stop": False, "default_dialect": "en"}, got, want,
+                     "ragged-table errors are not exactly one per table whose rows differ in cell count, at its first deviating row")
+
+
 def run_C12(ctx: Ctx) -> Result:
     alpha = ["|", "\\", "n", " ", "a", "\t"]
     L = ctx.n(6, 8)
@@ -1086,6 +1142,10 @@ def run_C12(ctx: Ctx) -> Result:
         docs.append(f"Feature: f\n  Scenario: s\n    Given a\n      | left{ch}right | b |\n      | c | {ch}d{ch} |\n")
         docs.append(f"Feature: f\n  Scenario Outline: s\n    Given <a>\n    Examples:\n      | a |\n      | x{ch}y |\n")
     res.merge(streams.parse_stream(docs + streams.corpus_docs(), proj_tables, modes=(False, True)))
+    mixed = ["Feature: f\n  Scenario: s\n    Given a\n      | a | b |\n  # c\n\n      | c |\n      | d | e |\n      |\n    When b\n      | x |\n      | y |\n",
+             "Feature: f\n  Scenario: s\n    Given a\n      | a |\n  oops\n      | c | d |\n    Then b\n      | \\| |\n      | a \\\\| b |\n",
+             "Feature: f\n  Scenario Outline: s\n    Given <a>\n    Examples:\n      | a | b |\n      | 1 |\n      | 1 | 2 | 3 |\n    @t\n    Examples:\n      |\n      | 1 |\n"]
+    ragged_oracle(res, mixed + docs + streams.corpus_docs() + streams.doc_mix(ctx.rng, ctx.n(200, 2000)))
     return res
 
 
@@ -1203,6 +1263,54 @@ def run_C14(ctx: Ctx) -> Result:
                              f"the next line ({K[q]}) is treated differently than without the unexpected line")
                     break
     res.stats["recovery_pairs_checked"] = n_rec
+    # ---- theorem-driven tie (Props/C14Recover): wherever `C14_unexpected_line_check` applies (driver op `recoverok`:
+    # line k+1 of a document is an unexpected line in a state whose tests all say no, no look-ahead steps over it, the run
+    # stays below the cap), the IMPLEMENTATION's errors on the document must be exactly its errors on the document without
+    # that line, line numbers after k moved down by one, plus the one unexpected-token error for the line at (k+1, indent+1)
+    rec_docs = [d_ for d_ in docs if 0 < len(d_) < 2500 and not impl.is_existing_path(d_)]
+    rec_docs = [d_ for d_ in rec_docs if "errors" in impl.parse(d_, False)][: ctx.n(150, 1500)]
+    rec_docs += ["Feature: f\nScenario: s\nGiven x\nFeature: g\nWhen y\n", "Feature: f\n  Scenario: s\n    Given a\n  oops\n      | a |\n  oops\n  Scenario: t\n",
+                 "Feature: f\n  Background:\n    Given a\n  Background:\n  Scenario: s\n    Examples:\n      | a |\n    Given b\n"]
+    outs_r = driver.batch([driver.request("recoverok", "en", d_) for d_ in rec_docs]) if rec_docs else []
+    n_skip = 0
+    for d_, m_ in zip(rec_docs, outs_r):
+        ls_ = d_.split("\n")
+        phys = [x + "\n" for x in ls_[:-1]] + ([ls_[-1]] if ls_[-1] else [])
+        with_ = impl.parse(d_, False)
+        for k_ in m_.get("skippable", [])[:6]:
+            if k_ >= len(phys) or (k_ == len(phys) - 1 and not phys[k_].endswith("\n") and k_ > 0 and False):
+                continue
+            without_src = "".join(phys[:k_] + phys[k_ + 1:])
+            if k_ == len(phys) - 1 and not d_.endswith("\n"):
+                pass        # the last line without a line break: the text before it still ends with one
+            if impl.is_existing_path(without_src):
+                continue
+            without = impl.parse(without_src, False)
+            n_skip += 1
+            u_ = phys[k_]
+            ind_ = len(u_) - len(u_.lstrip())
+            mine = [e_ for e_ in with_.get("errors", []) if e_["location"]["line"] == k_ + 1]
+            others = [e_ for e_ in with_.get("errors", []) if e_["location"]["line"] != k_ + 1]
+
+            def up(e_):
+                l_ = e_["location"]["line"]
+                if l_ <= k_:
+                    return e_
+                c_ = e_["location"].get("column")
+                m2 = re.match(r"^\((\d+):(\d+)\): ", e_["message"])
+                msg = f"({l_ + 1}:{m2.group(2)}): " + e_["message"][m2.end():] if m2 else e_["message"]
+                return {**e_, "location": {"line": l_ + 1, **({"column": c_} if c_ is not None else {})}, "message": msg}
+            want_others = [up(e_) for e_ in without.get("errors", [])]
+            ok_ = (len(mine) == 1 and mine[0]["type"] == "UnexpectedTokenException" and mine[0]["location"].get("column") == ind_ + 1
+                   and mine[0]["message"].startswith(f"({k_ + 1}:{ind_ + 1}): expected: ") and mine[0]["message"].endswith(f", got '{u_.strip()}'")
+                   and others == want_others)
+            res.note({"source": d_, "skipped_line": k_ + 1}, True)
+            if not ok_:
+                res.fail("recover", {"source": d_, "stop": False, "skipped_line": k_ + 1, "without_line": without_src},
+                         {"line_errors": mine, "other_errors": others}, {"other_errors": want_others},
+                         f"C14_unexpected_line_check applies to line {k_ + 1} but the implementation's errors are not: one unexpected-token error for that line "
+                         f"plus exactly the errors of the document without it (later lines moved down by one): {first_diff(others, want_others)}")
+    res.stats["theorem_driven_skipped_lines"] = n_skip
     return res
 
 
@@ -2326,10 +2434,10 @@ PROPS = {
     "C10": dict(modules=["C10"], run=make_compile_run(proj_pickle_types, extra_C10), exhaustive=True,
                 rule="all keyword-type sequences ≤ L over 5 types × background split × {plain, outline} as real text; synthetic ASTs; non-trivial = at least one pickle"),
     "C11": dict(modules=["C11", "C11Builder", "C11Tree", "C03Parse", "C11Pipeline"], run=make_compile_run(proj_pickle_ids, extra_C11), rule=GEN_RULE + "plus sequences of sources through one stream; non-trivial = ids were drawn"),
-    "C12": dict(modules=["C12"], run=run_C12, exhaustive=True,
+    "C12": dict(modules=["C12", "C12Doc"], run=run_C12, translators=["parser_table"], exhaustive=True,
                 rule="every row string ≤ L over {|, \\, n, space, tab, other} plus Unicode rows; generated ragged/rectangular tables; non-trivial = at least one cell"),
     "C13": dict(modules=["C13", "C03Doc"], run=run_C13, translators=["parser_table"], rule="doc strings with content lines from every Gherkin-looking kind, both delimiters, all indentation relations; matcher in the content state; non-trivial = accepted"),
-    "C14": dict(modules=["C14", "C14Stop"], run=run_C14, translators=["parser_table"], exhaustive=True,
+    "C14": dict(modules=["C14", "C14Stop", "C14Recover"], run=run_C14, translators=["parser_table"], exhaustive=True,
                 rule=GEN_RULE + "both error modes; all line-kind sequences ≤ L for error positions; non-trivial = rejected"),
     "C15": dict(modules=["C15"], run=run_C15, exhaustive=True,
                 rule="all ordered pairs (thorough: triples) of 12 state-perturbing documents through one Parser+TokenMatcher, sampled longer histories, random schedules of 2–3 concurrent parses gated at TokenScanner.read; non-trivial = any"),
